@@ -240,9 +240,21 @@ def dense_cases(rng, n, kind):
                 R_.append((a, rng.choice(st)))
         rng.shuffle(R_)
         kd = {'S': st, 'S0': [], 'R': R_, 'L': {a: [p for p in ('p', 'q') if rng.random() < 0.4] for a in st}}
-        g = rng.choice(ops2)
-        if rng.random() < 0.3:
-            g = (rng.choice(['U', 'R']), g, rng.choice(ops2[:40]))
+        if rng.random() < 0.65:
+            # simple properties (G a, F a, a U b, a R b, G F a, F G a) spelled so that they are NOT CTL path formulas and go through
+            # the tableau: an operand x is written (x or (x U false)) - cheap tableaux, many structures
+            lit = lambda: rng.choice([('ap', 'p'), ('ap', 'q'), ('not', ('ap', 'p')), ('not', ('ap', 'q')), ('true',)])
+            a, b = lit(), lit()
+            # persistence shapes (F G a, b U G a, ...) are over-weighted: their tableau has a 'waiting' component above a
+            # 'committed' one, i.e. a multi-node component that finishes while another one is still open
+            g = rng.choice([('G', a), ('F', a), ('U', a, b), ('R', a, b), ('G', ('F', a)), ('R', ('U', a, ('false',)), b)] +
+                           [('F', ('G', a))] * 5 + [('U', b, ('G', a))] * 4 + [('F', ('and', b, ('G', a)))] * 2 + [('G', ('F', ('G', a)))])
+            x = g[1]
+            g = (g[0], ('or', x, ('U', x, ('false',)))) + tuple(g[2:])
+        else:
+            g = rng.choice(ops2)
+            if rng.random() < 0.3:
+                g = (rng.choice(['U', 'R']), g, rng.choice(ops2[:40]))
         out.append((kd, (('A' if kind == 'LTL' else rng.choice('AE')), g)))
     return out
 
